@@ -97,6 +97,15 @@ Theorem C18_solve_preserves_invariant :
 Proof. exact solve_preserves_invariant. Qed.
 Print Assumptions C18_solve_preserves_invariant.
 
+(** the wrappers (PoreProfile / PlanarInterface :: solve_inplace): after ANY history of calls and field updates that
+    ends with a successful solve_inplace, the reported observables are those of the profile the wrapper holds *)
+Theorem C18_history_observables_belong_to_profile :
+  forall (P : Type) (obs1 obs2 : P -> Q) (solve : P -> option P) (acts : list (action P)) (w w' : wrapper P),
+  run P obs1 obs2 solve (acts ++ [ASolve P]) w = Some w' ->
+  w_obs1 P w' = Some (obs1 (w_profile P w')) /\ w_obs2 P w' = Some (obs2 (w_profile P w')).
+Proof. exact history_observables_belong_to_profile. Qed.
+Print Assumptions C18_history_observables_belong_to_profile.
+
 (** the replay used by the correspondence check is the model itself run on the observed residual stream *)
 Theorem C18_replay_ok_is_call_solver :
   forall stages debug stream c it outs left,
